@@ -262,3 +262,43 @@ func TestWriteFindings(t *testing.T) {
 		os.WriteFile("../../findings/C10/"+c.name+".json", b, 0o644)
 	}
 }
+
+// TestOpenRate (development): share of thorough open-bucket cases that carry an open point.
+func TestOpenRate(t *testing.T) {
+	if os.Getenv("C10_OPEN_RATE") == "" {
+		return
+	}
+	n, amb := 0, 0
+	for i := sweepDocs() + 7; i < sweepDocs()+16000; i += 8 {
+		in := fw.Get("C10").Gen(fw.CaseRNG(1, "C10", i), i, "thorough").(*In)
+		n++
+		for _, L := range modelOf(in).Lays {
+			if L.Ambiguous != "" {
+				amb++
+				break
+			}
+		}
+		if !in.ReportOnly {
+			t.Fatal("open bucket case is not report-only")
+		}
+	}
+	fmt.Println("open bucket cases", n, "with open point", amb)
+}
+
+func TestTrivial(t *testing.T) {
+	if os.Getenv("C10_TRIVIAL") == "" {
+		return
+	}
+	n, triv := 0, 0
+	sizes := map[int]int{}
+	for i := sweepDocs(); i < sweepDocs()+3000; i++ {
+		in := fw.Get("C10").Gen(fw.CaseRNG(1, "C10", i), i, "quick").(*In)
+		n++
+		k := len(modelOf(in).Lays)
+		sizes[k]++
+		if k < 3 {
+			triv++
+		}
+	}
+	fmt.Println(n, triv, sizes)
+}
